@@ -20,6 +20,7 @@ Cmp(o, r, m, what) ==
   ELSE IF r.tag = "store" /\ (o.w # r.w \/ o.members # m) THEN {what \o "-value"}
   ELSE {}
 Clauses(c) ==
+  IF c.skip = 1 THEN {} ELSE       \* (C14) a trait definition that pickle refuses cleanly: outside the quantifier
   LET g == Fix(c.cfg)
       useFast == HasFast(g)
   IN Cmp(c.a, Assign(g, c.tok), Members(g, c.tok, "assign"), "assign")
